@@ -8,11 +8,11 @@
 (***************************************************************************)
 EXTENDS JavaRoute
 
-CONSTANTS Progs, Digests
+CONSTANTS Progs, Digests,
+          Builds        \* build outcomes the environment may produce, subset of {"ok","compile","javac","timeout","fault"}
 
 Statuses == {"done", "halt", "fuel"}
 Behaviours == [status : Statuses, digest : Digests]
-Builds == {"ok", "compile", "javac", "timeout"}
 Observations == [digest : Digests, cls : {0, 1}]
 
 MCNext == \/ \E p \in Progs, b64 \in Behaviours, b32 \in Behaviours : Expect(p, b64, b32)
